@@ -12,16 +12,16 @@ E1E2 = ("TLC model checking of the implementation-level TLA+ model(s) with the s
         "model's next action).")
 NOTE = ("Trusted: TLC; the harness (scheduler, probe element/iterator, counting allocator) and the cfg-guarded shim of the two "
         "atomic types; sequentially consistent interleavings at the grain of atomic operations; bounds as listed in the "
-        "evidence (threads <= 3, length <= 4 in E1; length <= 9, threads <= 3 in E2).")
+        "evidence (threads <= 3, length <= 4 in E1; threads <= 3 in E2, length <= 9 except for the suite of sizes around 1024 / 2048).")
 
 CHECKS = {
-    "C01": ("TLA+ (Counter, Ticket) + TLC; invariants NoDup / NoLoss; trace validation", "6"),
-    "C02": ("TLA+ (Counter, Ticket) + TLC; invariants Index / Value / TicketIsPosition; trace validation", "6"),
+    "C01": ("TLA+ (Counter, Ticket) + TLC; invariants NoDup / NoLoss; trace validation; Apalache inductive invariants CounterInd / TicketInd (unbounded calls and counter values)", "6"),
+    "C02": ("TLA+ (Counter, Ticket) + TLC; invariants Index / Value / TicketIsPosition; trace validation; Apalache inductive invariant TicketInd (index fidelity)", "6"),
     "C03": ("TLA+ (Counter, Ticket) + TLC; chunk-contract invariants; trace validation", "6"),
-    "C04": ("TLA+ (Counter, Ticket) + TLC; Prefix / NoFalseEnd / RealTime / ThreadOrder; trace validation", "6"),
+    "C04": ("TLA+ (Counter, Ticket) + TLC; Prefix / NoFalseEnd / RealTime / ThreadOrder; trace validation; Apalache inductive invariant CounterInd (prefix)", "6"),
     "C05": ("TLA+ (Counter, Ticket) + TLC; EndSticks / LenAfterEnd / NoWrap; trace validation", "6"),
     "C06": ("TLA+ (Counter, Ticket) + TLC; SkipSticks / LenAfterSkip (+ no dup / index / order in skip histories); trace validation", "6"),
-    "C07": ("TLA+ (Ticket + HB) + TLC; Mutex / NoRace with release-acquire happens-before; TraceHB on logged orderings", "6"),
+    "C07": ("TLA+ (Ticket + HB) + TLC; Mutex / NoRace with release-acquire happens-before; TraceHB on logged orderings (next() and size_hint() of the wrapped iterator are accesses); Apalache inductive invariant TicketInd (mutual exclusion); directed huge-request suite", "6"),
     "C08": ("TLA+ (Counter with element slots and predicted destructor runs) + TLC; TraceCounter matches every DropElem event; TraceProps ledger", "6"),
     "C09": ("TLA+ (Counter: every in-flight step always enabled; Ticket: deadlock-freedom of the poll-reduced model) + TLC; frozen-thread schedules on the real crate", "6"),
     "C10": ("TLA+ (Counter, Ticket owner phase) + TLC; SeqWrong; trace validation", "6"),
